@@ -118,7 +118,7 @@ def static_compare(prog: Program, ref: Dict[str, Any], Model, symbols) -> List[s
 # ---------------------------------------------------------------------------
 def equivalence(prog: Program, ref: Dict[str, Any], Model, symbols, *, spelling: str = 'pos', check_text: bool = True,
                 check_reads: bool = True, runner: Optional[Callable] = None, budget_s: float = 120,
-                max_candidates: int = 2, range_from: str = 'reference') -> Dict[str, Any]:
+                max_candidates: int = 2, range_from: str = 'reference', ref_runner: Optional[Callable] = None) -> Dict[str, Any]:
     """Explore `_evaluate(t)` on symbolic series against the AST interpreter.
 
     Returns stats, `bad` (list of replay-able discrepancy records).
@@ -162,7 +162,7 @@ def equivalence(prog: Program, ref: Dict[str, Any], Model, symbols, *, spelling:
         # reference
         rlog: list = []
         rser = series_set(rlog)
-        ro = _outcome(lambda: run_reference(prog, Env(rser, t, REF_FUNCS)))
+        ro = _outcome(lambda: (ref_runner or run_reference)(prog, Env(rser, t, REF_FUNCS)))
         rec['io'], rec['ro'] = io, ro
         if io != ro:
             rec['bad'].append(f'outcome impl={io} ref={ro}')
@@ -297,7 +297,7 @@ def _witness(ctx: Ctx, names: List[str], extra: list) -> Optional[dict]:
 
 # ---------------------------------------------------------------------------
 def replay_values(prog: Program, Model, w: dict, runner: Optional[Callable] = None, seed: int = 0,
-                  symbols=None) -> List[str]:
+                  symbols=None, ref_runner: Optional[Callable] = None) -> List[str]:
     """Concrete check on real float64 arrays with real NumPy: one pass of the
     generated code vs the AST interpreter on plain floats.  The witness' values
     are tried first, then a few seeded random finite vectors."""
@@ -330,7 +330,7 @@ def replay_values(prog: Program, Model, w: dict, runner: Optional[Callable] = No
                 io = _outcome(impl)
                 funcs = dict(REF_FUNCS)
                 funcs['myexp'] = _c_myexp
-                ro = _outcome(lambda: run_reference(prog, Env(ser, t, funcs, strict_L=L)))
+                ro = _outcome(lambda: (ref_runner or run_reference)(prog, Env(ser, t, funcs, strict_L=L)))
             if io != ro:
                 bad.append(f'trial {trial}: outcome impl={io} ref={ro} (t={t}, L={L})')
                 break
